@@ -167,7 +167,7 @@ func genMatcher(r *ref.R, depth int) *mspec {
 	case x < 2:
 		return &mspec{kind: "hosts", domains: ref.Pick(r, [][]string{{"a.com"}, {"b.com", "{sub}.example.com"}, {"a.com", "b.com"}, {"{sub}.example.com"}})}
 	case x < 4:
-		return &mspec{kind: "pathver", param: ref.Pick(r, []string{"pv", "", "ver"}), versions: ref.Pick(r, [][]string{{"v1"}, {"v2", "v1"}, {"v1/v1"}, {"v2"}})}
+		return &mspec{kind: "pathver", param: ref.Pick(r, []string{"pv", "", "ver"}), versions: ref.Pick(r, [][]string{{"v1"}, {"v2", "v1"}, {"v1/v1"}, {"v2"}, {"v1", "v2", "v10", "v11"}, {"v1", "v1beta", "v2"}, {"v10", "v1"}})}
 	case x < 5:
 		return &mspec{kind: "headerver", param: ref.Pick(r, []string{"hv", "ver"}), versions: ref.Pick(r, [][]string{{"1"}, {"1", "2"}, {"2"}})}
 	case x < 6:
@@ -191,7 +191,7 @@ type grouter struct {
 
 var c13Patterns = []string{"/x", "/{p}/y", "/v1/x", "/v1/{p}/y"}
 var c13Hosts = []string{"a.com", "b.com", "x.example.com", "zz.org", "A.com:80"}
-var c13Paths = []string{"/x", "/v1/x", "/v2/x", "/v1/v1/x", "/7/y", "/v1/7/y", "/v2/v1/x", "/nothing", "/v1", "/v1/"}
+var c13Paths = []string{"/x", "/v1/x", "/v2/x", "/v1/v1/x", "/7/y", "/v1/7/y", "/v2/v1/x", "/nothing", "/v1", "/v1/", "/v10/x", "/v11/7/y", "/v1beta/x", "/v10/v1/x", "/v111/x"}
 var c13Accepts = []string{"", "application/json;version=1", "text/html;version=2", "a/b;version=3"}
 
 func runC13(c *Ctx) {
